@@ -261,6 +261,7 @@ func c15(c *Ctx) {
 	if c.Proofs.ModelBuilt {
 		var err error
 		model, err = h.RunModel(c.Driver, modelLines)
+		c.CrossAll(modelLines, model)
 		if err != nil {
 			fmt.Println(err)
 			return
